@@ -287,6 +287,7 @@ def run_check(pid, tier, seed, replay, t0):
     stats = dict(evaluations=0, steps=0, nontrivial=0, validated=0, distinct=set(), ops=collections.Counter(),
                  outs=collections.Counter(), cfgs=collections.Counter())
     crashed = []
+    cc_count = [0]
     if build_failure is None:
         if replay:
             line = open(replay).read().strip().split("\n")[0]
@@ -301,6 +302,16 @@ def run_check(pid, tier, seed, replay, t0):
         os.system("rm -rf '%s'" % work)
         model, impl, crashed = core.run_batches([(c[0], c[1], c[2]) for c in cases], model_exe, routing, bindirs, work, pid)
         ran = set(core.RAN)
+        # the extracted model binary against the kernel's own evaluation of the same definitions
+        from . import coqterm
+        rs = random.Random(seed * 7919 + len(cases))
+        pool = [c for c in cases if c[0] in model]
+        sample = rs.sample(pool, min(len(pool), 150 if tier == "quick" else 600))
+        lines = ["%s %s ; %s" % (c[0], gen.cfg_head(c[1]) , " ; ".join(c[2])) for c in sample]
+        ncc, ccbad = coqterm.crosscheck(lines, model, os.path.join(work, "coq"), pid) if lines else (0, [])
+        if ccbad:
+            raise core.ToolBroken("extracted model and in-Coq evaluation disagree (extraction / driver defect): " + repr(ccbad[:2]))
+        cc_count[0] = ncc
         for cid, cfg, steps, fam in cases:
             il = impl.get(cid)
             ml = model.get(cid)
@@ -381,6 +392,12 @@ def run_check(pid, tier, seed, replay, t0):
         print("  failing input: " + text)
         violations.append("VIOLATION property=%s replay=%s" % (pid, path))
     broken = list(static_broken)
+    chk = None
+    if tier == "thorough" and thms:
+        ok, chk = core.coqchk(pid)
+        if not ok:
+            broken.append("coqchk does not accept AV.Props.%s with an empty context: %s" % (pid, chk))
+        extra_cov["coqchk"] = chk
     if forb:
         broken.append("forbidden words in the Coq development: " + "; ".join(forb[:5]))
     if open_thms:
@@ -429,7 +446,7 @@ def run_check(pid, tier, seed, replay, t0):
             input_distribution=dict(ops=dict(stats["ops"]), outcomes=dict(stats["outs"]),
                                     configurations=len(stats["cfgs"])),
             known_findings_printed=sorted(seen_known), crashed_shards=len(crashed),
-            coq_build_s=round(coq_s, 1), **extra_cov
+            coq_build_s=round(coq_s, 1), extraction_crosschecked_in_coq=cc_count[0], **extra_cov
         ),
         assumptions=ASSUMPTIONS,
         wall_s=round(time.time() - t0, 1), violations=len(violations))
@@ -442,7 +459,7 @@ def run_check(pid, tier, seed, replay, t0):
 TRUSTED_BASE = [
     "Coq 8.16.1 kernel (coqc; vm_compute in finite-domain lemmas and witnesses; no native_compute)",
     "axioms: none declared; Print Assumptions output per theorem is recorded in coverage.theorems",
-    "extraction with ExtrOcamlBasic only (bool, option, unit, list, prod, sumbool, sumor, andb, orb); OCaml 4.13.1; zarith only for decimal I/O in the hand-written driver",
+    "extraction with ExtrOcamlBasic only (bool, option, unit, list, prod, sumbool, sumor, andb, orb); OCaml 4.13.1; zarith only for decimal I/O in the hand-written driver; cross-checked on every run: a random sample of the run's cases (coverage.extraction_crosschecked_in_coq) is re-evaluated inside Coq by vm_compute (AV.Model.Trace) and must give byte-identical trace lines",
     "correspondence check: harness (instrumented element types, registry, Reloc backend, instrumented global allocator), case generators, comparator",
     "modelled rather than verified: Rust's dynamic semantics as used by the crate (monomorphised Unknown::is dispatch, unwinding order, ptr::copy = memmove, TypeId equality), the global allocator's contract, rustc's struct layout",
 ]
@@ -521,6 +538,10 @@ def check_c15(pid, tier, seed, replay, t0):
         violations.append("VIOLATION property=%s replay=%s" % (pid, path))
     if forb:
         broken.append("forbidden words: " + "; ".join(forb[:5]))
+    if tier == "thorough" and thms:
+        ok, chk = core.coqchk(pid)
+        if not ok:
+            broken.append("coqchk does not accept AV.Props.%s with an empty context: %s" % (pid, chk))
     open_thms = [t for t in thms if not t[1]]
     if open_thms:
         broken.append("theorems not closed: " + ", ".join(t[0] for t in open_thms))
@@ -587,6 +608,10 @@ def check_c16(pid, tier, seed, replay, t0):
         violations.append("VIOLATION property=%s replay=%s" % (pid, path))
     if forb:
         broken.append("forbidden words: " + "; ".join(forb[:5]))
+    if tier == "thorough" and thms:
+        ok, chk = core.coqchk(pid)
+        if not ok:
+            broken.append("coqchk does not accept AV.Props.%s with an empty context: %s" % (pid, chk))
     open_thms = [t for t in thms if not t[1]]
     if open_thms:
         broken.append("theorems not closed: " + ", ".join(t[0] for t in open_thms))
